@@ -17,8 +17,9 @@
 (* (2) Cache keys.  An evaluator built for (grids, mode, wavenumber,        *)
 (*     quadrature order, expansion order, ncrit, depth) may be reused only *)
 (*     for a request with the same values.  KeyFields is the set of        *)
-(*     request fields that form the cache key; the requirement             *)
-(*     CacheSound says that two requests with equal keys are equal.        *)
+(*     request fields that form the cache key; a state machine of          *)
+(*     requests, parameter changes and cache clears checks that the        *)
+(*     interface handed out was built for the request that asked for it.   *)
 (*                                                                         *)
 (* (3) Backend protocol.  Per tree:  setup, then any number of rounds      *)
 (*     update_charges -> clear_values -> evaluate.  FmmTrace.tla validates *)
@@ -26,10 +27,10 @@
 (***************************************************************************)
 EXTENDS Integers, Sequences, FiniteSets, TLC
 
-CONSTANTS NElem, NQ, NSh, IndexByElement, KeyFields, Orders, Depths
+CONSTANTS NElem, NQ, NSh, IndexByElement, KeyFields, Orders, Depths, MaxSteps
 
-VARIABLES part, sup, req1, req2
-vars == <<part, sup, req1, req2>>
+VARIABLES part, sup, cache, params, handed, steps
+vars == <<part, sup, cache, params, handed, steps>>
 
 \* ---------------- (1) index maps
 Rank(S, e) == Cardinality({x \in S : x < e})            \* 0-based position of e in the sorted support
@@ -42,17 +43,38 @@ PointId(e, q) == NQ * (e - 1) + q
 PointsTouched(S) == {PointId(s[1], s[3]) : s \in Slots(S)}
 PointsOfSupportOnly(S) == PointsTouched(S) = {PointId(e, q) : e \in S, q \in 1..NQ}
 
-\* ---------------- (2) cache keys
+\* ---------------- (2) cache keys: a state machine over requests, parameter changes and cache clears
+\* The process holds the current parameter values (quadrature order, depth; expansion order and ncrit are fixed here) and a cache
+\* key -> interface; an interface remembers the request it was BUILT for.  Every operator creation asks for an interface:
+\*   Request(g)   look up Key(current request); on a miss build a new interface for the current request and store it
+\*   SetOrder / SetDepth   the user changes a global parameter between two operators
+\*   Clear        clear_fmm_cache()
+\* Requirement CacheSound: the interface handed out was built for exactly the request that asked for it.
+NoHand == [asked |-> "none", built |-> "none"]
 AllFields == {"grid", "mode", "k", "order", "expansion", "ncrit", "depth"}
-Requests == [grid : {1, 2}, mode : {"laplace"}, k : {0}, order : Orders, expansion : {5}, ncrit : {400}, depth : Depths]
 Key(r) == [f \in KeyFields |-> r[f]]
-CacheSound == part = "cache" => (Key(req1) = Key(req2) => req1 = req2)
+Current(g) == [grid |-> g, mode |-> "laplace", k |-> 0, order |-> params.order, expansion |-> 5, ncrit |-> 400, depth |-> params.depth]
 
 Init ==
-    \/ /\ part = "index" /\ sup \in (SUBSET (1..NElem)) \ {{}} /\ req1 = <<>> /\ req2 = <<>>
-    \/ /\ part = "cache" /\ sup = {} /\ req1 \in Requests /\ req2 \in Requests
-Next == FALSE /\ UNCHANGED vars
+    \/ /\ part = "index" /\ sup \in (SUBSET (1..NElem)) \ {{}} /\ cache = <<>> /\ params = [order |-> 4, depth |-> 4] /\ handed = NoHand /\ steps = 0
+    \/ /\ part = "cache" /\ sup = {} /\ cache = <<>> /\ params = [order |-> 4, depth |-> 4] /\ handed = NoHand /\ steps = 0
+Request(g) ==
+    /\ part = "cache" /\ steps < MaxSteps
+    /\ LET r == Current(g)
+           hit == \E n \in 1..Len(cache) : cache[n].key = Key(r)
+       IN IF hit
+          THEN /\ handed' = [asked |-> r, built |-> (cache[CHOOSE n \in 1..Len(cache) : cache[n].key = Key(r)]).built]
+               /\ UNCHANGED cache
+          ELSE /\ cache' = Append(cache, [key |-> Key(r), built |-> r])
+               /\ handed' = [asked |-> r, built |-> r]
+    /\ steps' = steps + 1 /\ UNCHANGED <<part, sup, params>>
+SetOrder(o) == part = "cache" /\ steps < MaxSteps /\ o # params.order /\ params' = [params EXCEPT !.order = o] /\ steps' = steps + 1 /\ UNCHANGED <<part, sup, cache, handed>>
+SetDepth(d) == part = "cache" /\ steps < MaxSteps /\ d # params.depth /\ params' = [params EXCEPT !.depth = d] /\ steps' = steps + 1 /\ UNCHANGED <<part, sup, cache, handed>>
+Clear == part = "cache" /\ steps < MaxSteps /\ cache # <<>> /\ cache' = <<>> /\ steps' = steps + 1 /\ UNCHANGED <<part, sup, params, handed>>
+Next == (\E g \in {1, 2} : Request(g)) \/ (\E o \in Orders : SetOrder(o)) \/ (\E d \in Depths : SetDepth(d)) \/ Clear
 Spec == Init /\ [][Next]_vars
 
+CacheSound == part = "cache" => handed.built = handed.asked
+\* a cleared cache never hands out an interface built before the clear (implied by CacheSound; stated for the history that uses clear)
 IndexMapsSound == part = "index" => (PositionsInBounds(sup) /\ PositionsDistinct(sup) /\ PointsOfSupportOnly(sup))
 =============================================================================
